@@ -78,7 +78,21 @@ func (vc *VC) parseAssigns(cls []*Clause, env *Env) (regs []region, everything b
 				if err != nil {
 					specFail("assigns: %v", err)
 				}
-				gt, _, err := vc.w.resolveType(e.(STypeOf).T, env.pkg)
+				hte := e.(STypeOf).T
+				gt, _, err := vc.w.resolveType(hte, env.pkg)
+				if (err != nil || gt == nil) && hte.Pkg != "" {
+					// heap[Struct.field]: the whole field heap
+					stT, _, err2 := vc.w.resolveType(&STypeExpr{Name: hte.Pkg}, env.pkg)
+					if err2 != nil || stT == nil {
+						specFail("assigns: %v", err2)
+					}
+					obj, index, _ := types.LookupFieldOrMethod(stT, true, env.pkgOf(stT), hte.Name)
+					if _, ok := obj.(*types.Var); !ok || len(index) != 1 {
+						specFail("assigns: no direct field %s.%s", hte.Pkg, hte.Name)
+					}
+					regs = append(regs, region{heap: vc.enc.FieldHeap(stT, index[0]), all: true})
+					continue
+				}
 				if err != nil || gt == nil {
 					specFail("assigns: %v", err)
 				}
@@ -350,7 +364,7 @@ func (vc *VC) execCall(x *ssa.Call, pc string, st *State) {
 		return
 	}
 	vc.callCount[name]++
-	ord := vc.callCount[name]
+	ord := vc.callOrdinal(x, name)
 	var fc *FuncContract
 	var formalNames []string
 	var actuals []SpecVal
@@ -1102,4 +1116,32 @@ func (vc *VC) dispatchCall(ifc *FuncContract, name string, actuals []SpecVal, re
 		results = append(results, vc.define("r_disp", vc.enc.SortOf(res.At(i).Type()), t))
 	}
 	return results
+}
+
+
+// callOrdinal: the 1-based ordinal of a call among the calls to the same callee, in source order
+// (independent of the order in which blocks are traversed).
+func (vc *VC) callOrdinal(x *ssa.Call, name string) int {
+	if vc.callOrds == nil {
+		vc.callOrds = map[ssa.Instruction]int{}
+		byName := map[string][]*ssa.Call{}
+		for _, b := range vc.fn.Blocks {
+			for _, in := range b.Instrs {
+				if c, ok := in.(*ssa.Call); ok {
+					if _, isB := c.Common().Value.(*ssa.Builtin); isB {
+						continue
+					}
+					n := calleeName(c.Common())
+					byName[n] = append(byName[n], c)
+				}
+			}
+		}
+		for _, cs := range byName {
+			sort.SliceStable(cs, func(i, j int) bool { return cs[i].Pos() < cs[j].Pos() })
+			for i, c := range cs {
+				vc.callOrds[c] = i + 1
+			}
+		}
+	}
+	return vc.callOrds[x]
 }
